@@ -168,12 +168,17 @@ def run(ctx, rep):
 
     # ------------------------------------------------------------ R08.h a group knows how many partitions its topic has, also after a restart
     rep.rule('R08.h', 'a consumer group is created with the number of partitions its topic has, at run time and when restored at start-up (after the partitions were loaded)', floor=2, analysis='A9 call-argument forms')
+    group_partition_count_forms(ctx, rep, 'R08.h')
+
+
+def group_partition_count_forms(ctx, rep, rid):
+    """shared with C05: a group is created with the partition count of its topic at run time and when restored at start-up"""
     import forms as forms_
     TS = '<server::streaming::topics::storage::FileTopicStorage as server::streaming::storage::TopicStorage>::load'
-    forms_.check_call_args(ctx, rep, 'R08.h', {
+    forms_.check_call_args(ctx, rep, rid, {
         TS: {'ConsumerGroup::new': ['re:^topic\\.topic_id, .*\\.id, .*\\.name, Topic::get_partitions_count\\(topic\\)$']},
         TOPIC + '::create_consumer_group': {'ConsumerGroup::new': ['re:^self\\.topic_id, phi\\{.*\\}, name, (HashMap::len\\(self\\.partitions\\)|Topic::get_partitions_count\\(self\\))$']},
     }, skip_self=False, cd=2)
     gb = ctx.fn_body(TOPIC + '::get_partitions_count')
     okc = any(c.name.split('::')[-1] == 'len' and render(gb.expr_operand(c.args[0])).endswith('.partitions') for c in gb.calls)
-    rep.ob('R08.h', TOPIC + '::get_partitions_count', 'counts the partitions map', okc, None, None if okc else 'get_partitions_count no longer returns partitions.len()')
+    rep.ob(rid, TOPIC + '::get_partitions_count', 'counts the partitions map', okc, None, None if okc else 'get_partitions_count no longer returns partitions.len()')
